@@ -23,7 +23,7 @@ XIS_NEAR = [0.999, 0.9999]
 RULE = ('correspondence cases = (entry point, xi, periods (optionally one leading 0), dt, record): hats, steps, sines, random integer/dyadic records, '
         'windows of the shipped motion; lengths 2..400 (quick) / 1500 (thorough); 1..6 periods with 0.2 <= T/dt <= 2e4; xi in {0,.02,.05,.3,.7,.99} and near-critical {.999,.9999}; '
         'entry points sdof.response_series, sdof.nigam_and_jennings_response, AccSignal.response_series (response_times passed or preset, default and explicit xi); '
-        'records stored as int32/int64/float32 and periods stored as a float32 array (values exactly representable; the model is given the same numbers as float64) at all three entry points; '
+        'records stored as int32/int64/float32, as int8/int16/int32 counts containing the minimum value of the dtype and as uint8/uint16/uint32 offset counts, and periods stored as a float32 array (values exactly representable; the model is given the same numbers as float64) at all three entry points; '
         'rows compared with the Q-model run on the implementation\'s own compute_a_and_b values, rtol 1e-9 of each row\'s peak (1e-13 with injected dyadic coefficients on integer records); '
         'the third-series relation and the T=0 row are also evaluated directly on the implementation outputs; '
         'interval point checks: generated nj_* formulas at (xi, w, dt) vs the implementation floats (grid xi x T/dt incl. xi = .999, .9999 and random points incl. xi in (.995, .99995)), tolerance 1e-10*scale + 4096*eps*cancellation terms; '
@@ -166,6 +166,37 @@ def gen_record(rng, n, exact=False):
     return v, kind
 
 
+def gen_narrow_record(rng, n, dtype):
+    """integer counts inside the range of `dtype`, as a float64 array (what the model is given): signed dtypes = a strong
+    motion clipped at both rails with at least one sample at the minimum value; unsigned dtypes = offset-binary counts of a weak
+    or strong motion (mid-scale offset), occasionally touching 0 and the maximum"""
+    info = np.iinfo(dtype)
+    lo, hi = float(info.min), float(info.max)
+    kind = rng.choice(['sine', 'walk', 'noise'])
+    if kind == 'sine':
+        w, ph, dec = rng.uniform(0.05, 2.0), rng.uniform(0, 6.28), rng.choice([0.0, 0.01, 0.05])
+        x = np.array([math.sin(w * i + ph) * math.exp(-dec * i) for i in range(n)])
+    elif kind == 'walk':
+        x, cur = [], 0.0
+        for _ in range(n):
+            cur = max(-1.0, min(1.0, cur + rng.uniform(-0.4, 0.4)))
+            x.append(cur)
+        x = np.array(x)
+    else:
+        x = np.array([rng.uniform(-1, 1) for _ in range(n)])
+    if info.min < 0:
+        v = np.clip(np.round(x * rng.uniform(0.8, 1.6) * hi), lo, hi)
+        v[rng.randrange(n)] = lo                      # at least one sample on the negative rail
+        if rng.random() < 0.3:
+            v[rng.randrange(n)] = lo
+    else:
+        mid = float((info.max + 1) // 2)
+        v = np.clip(np.round(mid + x * rng.choice([0.01, 0.2, 1.0, 1.3]) * mid), lo, hi)
+        if rng.random() < 0.3:
+            v[rng.randrange(n)] = rng.choice([lo, hi])
+    return v.astype(float), '%s/%s' % (np.dtype(dtype).name, kind)
+
+
 def gen_periods(rng, dt, lead0):
     k = rng.randint(1, 6)
     ps = []
@@ -218,6 +249,18 @@ def call_entry(entry, rec, dt, periods, xi):
     if entry == 'AccSignal.response_series[int record]':
         s = eqsig.AccSignal(rec.astype(np.int64), dt)
         return s.response_series(response_times=np.array(periods), xi=xi)
+    if entry in NARROW_DTYPE_ENTRIES:
+        # raw digitiser counts in a narrow / unsigned integer dtype (the caller passes integer values inside the dtype's range:
+        # the cast is exact); the library converts to float itself, so the answer is that of the same numbers as float64
+        fn, dtype = NARROW_DTYPE_ENTRIES[entry]
+        stored = rec.astype(dtype)
+        assert np.array_equal(stored.astype(float), rec)
+        if fn == 'sdof.response_series':
+            return sdof.response_series(stored, dt, np.array(periods), xi)
+        if fn == 'sdof.nigam_and_jennings_response':
+            return sdof.nigam_and_jennings_response(stored, dt, np.array(periods), xi)
+        s = eqsig.AccSignal(stored, dt)
+        return s.response_series(response_times=np.array(periods), xi=xi)
     if entry == HISTORY_ENTRY:
         # the same object has already answered for ANOTHER period list with the same damping; the periods are then changed
         # through the public setter and the series asked for again: they are those of the periods the object holds now
@@ -241,6 +284,21 @@ ENTRIES = ['sdof.response_series', 'sdof.response_series[list]', 'sdof.nigam_and
            'AccSignal.response_series[arg]', 'AccSignal.response_series[preset,default xi]']
 # records stored with another dtype (digitiser counts, single precision): the response is that of the same numbers as float64
 DTYPE_ENTRIES = ['sdof.response_series[int32 record]', 'sdof.response_series[float32 record]', 'AccSignal.response_series[int record]']
+# records stored in a narrow signed dtype that contain its minimum value (a 16-bit digitiser clipped at the negative rail:
+# -32768 has no positive counterpart in int16) or in an unsigned dtype (offset-binary counts): negating such an array in its own
+# dtype wraps, so the sign flip of the load must happen after the conversion to float. entry -> (function, numpy dtype)
+NARROW_DTYPE_ENTRIES = {
+    'sdof.response_series[int16 record containing -32768]': ('sdof.response_series', np.int16),
+    'sdof.nigam_and_jennings_response[uint16 record]': ('sdof.nigam_and_jennings_response', np.uint16),
+    'AccSignal.response_series[int16 record containing -32768]': ('AccSignal.response_series', np.int16),
+    'sdof.response_series[uint16 record]': ('sdof.response_series', np.uint16),
+    'sdof.nigam_and_jennings_response[int16 record containing -32768]': ('sdof.nigam_and_jennings_response', np.int16),
+    'AccSignal.response_series[uint16 record]': ('AccSignal.response_series', np.uint16),
+    'sdof.response_series[int8 record containing -128]': ('sdof.response_series', np.int8),
+    'AccSignal.response_series[uint8 record]': ('AccSignal.response_series', np.uint8),
+    'sdof.nigam_and_jennings_response[uint32 record]': ('sdof.nigam_and_jennings_response', np.uint32),
+    'sdof.response_series[int32 record containing -2147483648]': ('sdof.response_series', np.int32),
+}
 # periods stored in a single-precision array (every value exactly representable): the requested oscillators are those same
 # numbers, so the response is that of the float64 array with equal values
 HISTORY_ENTRY = 'AccSignal.response_series[second call, response_times changed in between]'
@@ -340,7 +398,22 @@ def run(rep, rng, tier):
     # (H) structure: loop, rows, w constant, third series, T=0 row, entry points
     cases = []
     n_tol, n_inj = (60, 25) if tier == 'quick' else (500, 200)
+    n_narrow = 6 if tier == 'quick' else 40
     maxlen = 400 if tier == 'quick' else 1500
+
+    def tol_case(entry, rec, dt, periods, xi, klass):
+        cfs = guarded(coeff_lists, xi, periods, dt)
+        out = guarded(call_entry, entry, rec, dt, periods, xi)
+        for r in (cfs, out):
+            if isinstance(r, ImplError):
+                rep.violation(entry, {'function': entry, 'args': {'dt': dt, 'xi': xi, 'periods': periods, 'values': list(rec)}, 'impl_error': str(r)})
+        if isinstance(cfs, ImplError) or isinstance(out, ImplError):
+            return
+        if not all(np.all(np.isfinite(np.array(x))) for x in out):
+            rep.violation(entry, {'function': entry, 'args': {'dt': dt, 'xi': xi, 'periods': periods, 'values': list(rec)}, 'impl_error': 'non-finite output'})
+            return
+        cases.append(mk_case(entry, rec, dt, periods, xi, cfs, out, 1e-12, klass))
+
     for k in range(n_tol):
         n = gens.small_len(rng, 2, maxlen)
         rec, kind = gen_record(rng, n)
@@ -361,17 +434,19 @@ def run(rep, rng, tier):
             periods = as_float32_values(periods)
             if rng.random() < 0.4:     # small powers of two and halves, as in hand-written period lists
                 periods = ([0.0] if lead0 else []) + sorted(rng.sample([0.25, 0.5, 1.0, 1.5, 2.0, 4.0, 8.0], rng.randint(1, 4)))
-        cfs = guarded(coeff_lists, xi, periods, dt)
-        out = guarded(call_entry, entry, rec, dt, periods, xi)
-        for r in (cfs, out):
-            if isinstance(r, ImplError):
-                rep.violation(entry, {'function': entry, 'args': {'dt': dt, 'xi': xi, 'periods': periods, 'values': list(rec)}, 'impl_error': str(r)})
-        if isinstance(cfs, ImplError) or isinstance(out, ImplError):
-            continue
-        if not all(np.all(np.isfinite(np.array(x))) for x in out):
-            rep.violation(entry, {'function': entry, 'args': {'dt': dt, 'xi': xi, 'periods': periods, 'values': list(rec)}, 'impl_error': 'non-finite output'})
-            continue
-        cases.append(mk_case(entry, rec, dt, periods, xi, cfs, out, 1e-12, '%s/%s/%s' % (entry, kind, 'lead0' if lead0 else 'nolead')))
+        tol_case(entry, rec, dt, periods, xi, '%s/%s/%s' % (entry, kind, 'lead0' if lead0 else 'nolead'))
+    # records stored as raw counts in a narrow signed dtype (containing its minimum value) or an unsigned dtype
+    names = list(NARROW_DTYPE_ENTRIES)
+    off = rng.randrange(len(names))
+    for k in range(n_narrow):
+        entry = names[(off + k) % len(names)]
+        n = gens.small_len(rng, 2, 120)
+        rec, kind = gen_narrow_record(rng, n, NARROW_DTYPE_ENTRIES[entry][1])
+        dt = rng.choice([0.01, 0.005, 0.02, 0.25])
+        lead0 = rng.random() < 0.6
+        periods = gen_periods(rng, dt, lead0)[:4]
+        xi = rng.choice(XIS)
+        tol_case(entry, rec, dt, periods, xi, '%s/%s/%s' % (entry, kind, 'lead0' if lead0 else 'nolead'))
     # injected dyadic coefficients: the implementation's loop runs on exactly representable numbers -> exact comparison
     real = sdof.compute_a_and_b
     try:
